@@ -187,6 +187,14 @@ def run(ctx):
                     custom["thermometer_0"] = {"d0": round(rng.uniform(1, 300), 3), "d1": round(rng.uniform(0.01, 1), 4)}
                     ck = sorted(set(ck) | {len(keys)})      # for the model: one more key, beyond the file's own
                 if shared is not None and rng.random() < 0.7:
+                    if rng.random() < 0.5:
+                        # the caller EDITS that one dict object in place between two requests (a sensitivity study tweaking one
+                        # coefficient, adding or removing an entry): the next request must see the edited content
+                        k_ = rng.choice(sorted(shared))
+                        if len(shared) > 1 and rng.random() < 0.3:
+                            del shared[k_]
+                        else:
+                            shared[k_] = perturb(copy.deepcopy(shared[k_]), rng)
                     custom = copy.deepcopy(shared)
                     ck = sorted(keys.index(k_) for k_ in shared)
                     reqs.append((sat, f, keys, ck, custom, True, rewrite_to))
@@ -199,6 +207,10 @@ def run(ctx):
                 if rewrite_to is not None:
                     with open(p3, "wb") as fh3:
                         fh3.write(content if versions[rewrite_to] is not None else json.dumps(tables[rewrite_to]).encode())
+                if use_shared:
+                    # same object, new content (edited in place)
+                    live_shared.clear()
+                    live_shared.update(copy.deepcopy(custom))
                 with warnings.catch_warnings():
                     warnings.simplefilter("ignore")
                     try:
